@@ -14,7 +14,7 @@ func init() {
 	c07Text := "bounded model checking: goroutines of the real code (go/ssa) are turned into control-flow automata by symbolic execution between visible operations; the product is unrolled K steps into one SMT formula whose schedule, inputs, stage function (uninterpreted F) and failure pattern (uninterpreted predicate E: every subset of failing positions in one query) are solver variables; K is raised until no run of K non-stutter steps exists (completeness threshold), so Final conditions are statements about all complete runs of the configuration. "
 	reg(&PropSpec{
 		ID: "C07", Level: "model_checking",
-		Explanation: c07Text + "C07: Map x {Lift, Try} and FMap x {LiftF, TryF} fed by a producer goroutine (send all, close) or a pre-filled Seq, input capacity 0..2, length 0..3 (4 thorough); Unfold(Lift) with capacity 0..2 (3 thorough, generator failing within 3 steps); Emit(Lift) on the lax virtual clock with capacity 0..2 and the function failing within the first 3 indices (thorough: within 4, capacity 3 within 3). Two independent consumers (values, errors). Fail-fast: j-th value == F(x_j) with j below the first failing index m, exactly one error == verr{x_m}, Invariant calls <= m+1 (nothing processed further), closed(exx) implies the error is delivered or buffered, Final: counts, both channels closed, stage goroutine exited. Try: g-th value is F of the g-th non-failing element, g-th error is verr of the g-th failing element, Final: both counts complete, function applied exactly n times in input order, both channels closed, all goroutines (producer included) exited.",
+		Explanation: c07Text + "C07: Map x {Lift, Try} and FMap x {LiftF, TryF} fed by a producer goroutine (send all, close) or a pre-filled Seq, input capacity 0..2, length 0..3 (4 thorough); the fail-fast stages also with a producer that never closes the input (n 1..3, some element failing: the stage must close at the failure, not when the input ends); Unfold(Lift) with capacity 0..2 (3 thorough, generator failing within 3 steps); Emit(Lift) on the lax virtual clock with capacity 0..2 and the function failing within the first 3 indices (thorough: within 4, capacity 3 within 3). Two independent consumers (values, errors). Fail-fast: j-th value == F(x_j) with j below the first failing index m, exactly one error == verr{x_m}, Invariant calls <= m+1 (nothing processed further), closed(exx) implies the error is delivered or buffered, Final: counts, both channels closed, stage goroutine exited. Try: g-th value is F of the g-th non-failing element, g-th error is verr of the g-th failing element, Final: both counts complete, function applied exactly n times in input order, both channels closed, all goroutines (producer included) exited.",
 		Assumptions: c07Assumptions,
 		Jobs:        c07Jobs,
 	})
@@ -43,6 +43,12 @@ func c07Jobs(tier string) []JobSpec {
 				}
 				add(h, 48, map[string]int{"stage": stage, "seq": 1, "n": n})
 			}
+		}
+	}
+	// fail-fast with an input that is never closed
+	for stage := 0; stage <= 1; stage++ {
+		for _, nc := range [][2]int{{1, 0}, {2, 0}, {2, 1}, {3, 0}} {
+			add("VFailFastOpen", 48, map[string]int{"stage": stage, "n": nc[0], "cap": nc[1]})
 		}
 	}
 	ucaps := []int{0, 1, 2}
